@@ -14,7 +14,7 @@ pub fn def() -> PropDef {
         job_level,
         run_job,
         replay,
-        rule: "configs: key-producing base forms {x, S-x, C-S-x, (multi lctl x), (unmod x), (unshift x), use-defsrc, _ over a lower layer} wrapped 0..2 times (quick: 0..1 at depth D, 2 at D-1) in {multi, tap-hold tap slot, tap-hold hold slot, tap-hold-press/release-timeout timeout slot, tap-dance, one-shot, fork left/right, switch case, v1 chord, v2 chord}, on 1-2 layers (subject key a; b in {plain b, lsft}; c = layer-while-held) with and without a defoverrides entry on the produced key; plus curated 3-layer configs with two layer keys; plus an override-chain family (subject forms that can produce x or y, chained defoverrides whose outputs depend on held lctl / lsft, the modifiers being plain keys held together with the subject). Histories: ALL physically consistent histories of D steps over {press, release, repeat of a and b; press/release c; tick 1; tick 6} (repeats at every point, also while a tap-hold is pending). Safety oracle on EVERY repeat step: at most one output event, it is a repeat, and its key is in the OS-down set before the step. Completeness oracle at every leaf where exactly one non-layer physical key p is down: settle 45 ticks; if the OS-down set D is non-empty, a repeat of p must emit a repeat for a member of D, and (for output chords, whose modifiers are listed first) for the non-modifier member. The probe applies only while no layer key has been released since p's first press (layers activated later leave the action's layer active) (the property speaks of actions on the active layers).",
+        rule: "configs: key-producing base forms {x, S-x, C-S-x, (multi lctl x), (unmod x), (unshift x), use-defsrc, _ over a lower layer} wrapped 0..2 times (quick: 0..1 at depth D, 2 at D-1) in {multi, tap-hold tap slot, tap-hold hold slot, tap-hold-press/release-timeout timeout slot, tap-dance, one-shot, fork left/right, switch case, v1 chord, v2 chord}, on 1-2 layers (subject key a; b in {plain b, lsft}; c = layer-while-held) with and without a defoverrides entry on the produced key; plus curated 3-layer configs with two layer keys; plus a chords-v2 family (a key taking part in two chords, one of them disabled on the base layer: with both participants of the active chord held, a repeat of either repeats the chord's output); plus an override-chain family (subject forms that can produce x or y, chained defoverrides whose outputs depend on held lctl / lsft, the modifiers being plain keys held together with the subject). Histories: ALL physically consistent histories of D steps over {press, release, repeat of a and b; press/release c; tick 1; tick 6} (repeats at every point, also while a tap-hold is pending). Safety oracle on EVERY repeat step: at most one output event, it is a repeat, and its key is in the OS-down set before the step. Completeness oracle at every leaf where exactly one non-layer physical key p is down: settle 45 ticks; if the OS-down set D is non-empty, a repeat of p must emit a repeat for a member of D, and (for output chords, whose modifiers are listed first) for the non-modifier member. The probe applies only while no layer key has been released since p's first press (layers activated later leave the action's layer active) (the property speaks of actions on the active layers).",
         assumptions: &["D is attributed to p because every other held physical key is a pure layer key", "sequence mode is not entered in these configs (covered for safety by C02/C12)"],
         required_level,
         min_outcomes: 3,
@@ -159,6 +159,15 @@ fn jobs(tier: Tier) -> &'static Vec<Job> {
                     v.push(Job { tag: format!("ovr-chain/{ftag}/{otag}"), cfg, keys: vec!["a", "b", "c"], layer_keys: vec![], mod_keys: vec!["b", "c"], depth: d + 1, level: lvl });
                 }
             }
+            // chords v2: a key that takes part in two chords, one of them disabled on the base layer
+            for (tag, chords) in [
+                ("first-disabled", "(a b) x 5 all-released (base)\n  (a c) y 5 all-released ()"),
+                ("second-disabled", "(a c) y 5 all-released ()\n  (a b) x 5 all-released (base)"),
+                ("none-disabled", "(a b) x 5 all-released ()\n  (a c) y 5 all-released ()"),
+            ] {
+                let cfg = format!("(defcfg concurrent-tap-hold yes process-unmapped-keys no)\n(defsrc a b c)\n(deflayer base a b c)\n(defchordsv2\n  {chords})\n");
+                v.push(Job { tag: format!("v2-two-chords/{tag}"), cfg, keys: vec!["a", "b", "c"], layer_keys: vec![], mod_keys: vec![], depth: d + 1, level: lvl });
+            }
             // curated 3-layer configs with two layer keys
             for (tag, l0, l1, l2) in [
                 ("3L-diff", "x", "y", "z"),
@@ -234,6 +243,30 @@ fn check(j: &Job, hist: &[Ev], down: &[u16], first_new: usize, st: &mut Stats) -
         // a layer activated later leaves the layer of the action active; only a layer *release* can deactivate it
         !hist[pi..].iter().any(|e| matches!(e, Ev::R(c) if layer_codes.contains(c)))
     };
+    if j.tag.starts_with("v2-two-chords") && nonlayer.len() == 2 {
+        // both participants of a chord are down: whichever of them the OS repeats, the chord's output repeats
+        if let Err(m) = s.step(Ev::T(45)) {
+            return Some((panic_signature(&m), m));
+        }
+        let d = crate::sim::os_down_set(&s.trace());
+        let is_chord_out = d.len() == 1 && (d[0] == "X" || d[0] == "Y");
+        if is_chord_out {
+            for p in nonlayer.iter().copied() {
+                let n0 = s.n_out();
+                if let Err(m) = s.step(Ev::Rep(p)) {
+                    return Some((panic_signature(&m), m));
+                }
+                st.validated += 1;
+                let new: Vec<String> = s.raw_outputs()[n0..].iter().filter(|x| !x.starts_with("t:")).cloned().collect();
+                let rep = new.first().and_then(|e| e.strip_prefix("out:↓")).map(|x| x.to_string());
+                if rep.as_deref() != Some(d[0].as_str()) {
+                    st.outcome("probe-missing");
+                    return Some(("completeness::chord-participant-no-repeat".into(), format!("chord output {d:?} is down with both participants held, but a repeat of participant code {p} emitted {new:?}")));
+                }
+                st.outcome("probe-ok");
+            }
+        }
+    }
     if nonlayer.len() == 1 && layer_ctx_unchanged(nonlayer[0]) {
         let p = nonlayer[0];
         if let Err(m) = s.step(Ev::T(45)) {
